@@ -1,2 +1,60 @@
-(* placeholder until the theorems are proved: replaced below in this session *)
-From FrameModel Require Import Num.QcTac Geometry.Rect Alloc.Alloc.
+(* C02 - Refining an allocation conserves tiling, module area and centroid.
+   Statements only; every proof is [exact <lemma>]. *)
+From FrameModel Require Import Num.QcTac Geometry.Rect Alloc.Alloc Alloc.GeomExtra Alloc.RefinesFacts
+  Alloc.AcceptFacts Alloc.OpsFacts.
+Open Scope list_scope.
+Open Scope Qc_scope.
+
+(* [refines cells cells'] (Alloc/RefinesFacts.v): cells' is cells with every cell replaced, in place,
+   by pieces that (cell_refines) carry the same occupancy map and attributes, lie inside it, do not
+   overlap each other, add up to its area and first moments, and are the cell itself when it is fixed. *)
+
+(* every composition of refine / uniform_refinement_depth / griddify succeeds on an accepted
+   allocation, yields an accepted allocation, and is a refinement of its argument *)
+Theorem C02_run_ops_ok : forall eps aeps q ops, 0 <= aeps -> Forall op_admissible ops ->
+  forall cells, accepted aeps cells ->
+  exists new, run_ops eps aeps q ops cells = Some new /\ refines cells new /\ accepted aeps new.
+Proof. exact run_ops_ok. Qed.
+Print Assumptions C02_run_ops_ok.
+
+Theorem C02_refine_ok : forall aeps t levels cells, 0 <= aeps -> (0 < levels)%nat -> accepted aeps cells ->
+  exists new, refine aeps t levels cells = Some new /\ refines cells new /\ accepted aeps new.
+Proof. exact refine_ok. Qed.
+Print Assumptions C02_refine_ok.
+
+Theorem C02_uniform_ok : forall aeps cells, 0 <= aeps -> accepted aeps cells ->
+  exists new, uniform_refinement_depth aeps cells = Some new /\ refines cells new /\ accepted aeps new.
+Proof. exact uniform_ok. Qed.
+Print Assumptions C02_uniform_ok.
+
+Theorem C02_griddify_ok : forall eps aeps q cells, 0 <= aeps -> accepted aeps cells ->
+  exists new, griddify eps aeps q cells = Some new /\ refines cells new /\ accepted aeps new.
+Proof. exact griddify_ok. Qed.
+Print Assumptions C02_griddify_ok.
+
+(* a refinement conserves every module's allocated area and centre of mass *)
+Theorem C02_refines_area : forall m cells cells', refines cells cells' -> area_of m cells' = area_of m cells.
+Proof. exact refines_area. Qed.
+Print Assumptions C02_refines_area.
+
+Theorem C02_refines_center : forall m cells cells', refines cells cells' -> center_of m cells' = center_of m cells.
+Proof. exact refines_center. Qed.
+Print Assumptions C02_refines_center.
+
+(* the tiling, inheritance and fixed-cell clauses are the fields of cell_refines; restated *)
+Theorem C02_refines_unfold : forall cells cells', refines cells cells' ->
+  exists parts, cells' = List.concat parts /\
+    Forall2 (fun c ps =>
+      Forall (fun p => calloc p = calloc c /\ wf (crect p) /\ is_inside (crect p) (crect c) = true /\
+                       same_attrs (crect c) (crect p)) ps /\
+      pairwise_no_ov (map crect ps) /\
+      Qcsum (map carea ps) = carea c /\
+      (fixed (crect c) = true -> ps = [c])) cells parts.
+Proof. exact refines_unfold. Qed.
+Print Assumptions C02_refines_unfold.
+
+(* pieces of different cells overlap no more than their parents did *)
+Theorem C02_ov_mono : forall a b p q, is_inside a p = true -> is_inside b q = true ->
+  area_overlap a b <= area_overlap p q.
+Proof. exact ov_mono. Qed.
+Print Assumptions C02_ov_mono.
